@@ -7,8 +7,9 @@ from engine import coq_bool, coq_list
 IMPORTS = ["Lib.Base", "Lib.PyStr", "Model.Session", "Model.SessionCheck"]
 
 
-def one_history(ctx, rng, plan, oidc, roi, observers, label, fixed_ops=None, rules="explicit", empty3=False):
-    rs = sess.RealSession(oidc=oidc, revoke_refresh_on_issue=roi, rules=rules, empty3=empty3)
+def one_history(ctx, rng, plan, oidc, roi, observers, label, fixed_ops=None, rules="explicit", empty3=False, deny=False):
+    rs = sess.RealSession(oidc=oidc, revoke_refresh_on_issue=roi, rules=rules, empty3=empty3, deny=deny)
+    ctx.count("deny_unknown_scopes:" + ("provider-on/client_1-off" if deny else "off"))
     ctx.count("rules:" + rules)
     ctx.count("client_12-allowed-scopes:" + ("empty" if empty3 else "absent"))
     try:
@@ -31,7 +32,7 @@ def one_history(ctx, rng, plan, oidc, roi, observers, label, fixed_ops=None, rul
             if fin:
                 fin(rs, rec)
         term = "(%s, %s, %s, %s, %s)" % (coq_bool(oidc), coq_bool(roi), coq_bool(empty3), coq_list(pairs), sess.coq_state(rs))
-        record = {"label": label, "oidc": oidc, "revoke_refresh_on_issue": roi, "usage_rules": rules, "client_12_allowed_empty": empty3, "ops": rec}
+        record = {"label": label, "oidc": oidc, "revoke_refresh_on_issue": roi, "usage_rules": rules, "client_12_allowed_empty": empty3, "deny_unknown_scopes": deny, "ops": rec}
         for op, out in rec:
             ctx.count("op:" + op[0])
             ctx.count("out:" + out[0] + (":" + str(out[1]) if out[0] in ("err", "exc") else ""))
@@ -54,6 +55,6 @@ def run_histories(ctx, n_random, length, observers_factory, structured=(), seed_
         roi = (i % 5 == 4)
         plan = sess.gen_history(rng, rng.randint(*length))
         cases.append(one_history(ctx, rng, plan, oidc, roi, observers_factory(), "%s-%d" % (seed_label, i), rules=RULES[(i // 3) % 3],
-                                 empty3=(i % 4 == 1)))
+                                 empty3=(i % 4 == 1), deny=(i % 4 == 3)))
     ctx.coq_check_cases(IMPORTS, "hist", "chk_hist", cases, shard=12, label="hist", diag="diag_hist")
     return cases
